@@ -7,7 +7,6 @@
 use ignore::{DirEntry, WalkParallel, WalkState};
 use std::path::Path;
 use std::sync::atomic::{AtomicBool, Ordering};
-use std::sync::mpsc::{Receiver, TryRecvError};
 use std::sync::{Arc, Mutex, RwLock};
 
 /// Callbacks implemented by the simulator (it lives outside this repository).
@@ -20,9 +19,10 @@ pub trait SimHooks: Send + Sync {
   fn thread_start(&self, token: u64);
   /// Last thing a thread does; every resource it owned has already been dropped.
   fn thread_exit(&self, token: u64, panicking: bool);
-  /// The caller found the channel empty: block until another thread made progress.
-  /// Returns false when the run was aborted (the caller must behave as if disconnected).
-  fn block_on_channel(&self) -> bool;
+  /// The caller is about to call the blocking `Receiver::recv` of the item channel.
+  fn before_recv(&self);
+  /// The blocking `recv` returned.
+  fn after_recv(&self);
   /// The caller waits for the threads with these tokens to exit.
   fn block_on_join(&self, tokens: &[u64]);
   /// Number of simulated walker threads.
@@ -99,28 +99,22 @@ impl Drop for ThreadGuard {
   }
 }
 
-/// `Receiver::recv` with the blocking made visible to the simulator.
-pub fn sim_recv<T>(rx: &Receiver<T>) -> Option<T> {
-  let Some(h) = current() else {
-    return rx.recv().ok();
-  };
-  loop {
-    h.yield_point("recv", "");
-    match rx.try_recv() {
-      Ok(t) => {
-        h.note("recv-item", "");
-        return Some(t);
-      }
-      Err(TryRecvError::Disconnected) => {
-        h.note("recv-closed", "");
-        return None;
-      }
-      Err(TryRecvError::Empty) => {
-        h.note("recv-empty", "");
-        if !h.block_on_channel() {
-          return None;
-        }
-      }
+/// Brackets the production `Receiver::recv` call: created right before it, dropped right
+/// after it returned, so that the simulator sees where the consumer blocks and resumes.
+pub struct RecvGuard(Option<Arc<dyn SimHooks>>);
+
+pub fn recv_guard() -> RecvGuard {
+  let hooks = current();
+  if let Some(h) = &hooks {
+    h.before_recv();
+  }
+  RecvGuard(hooks)
+}
+
+impl Drop for RecvGuard {
+  fn drop(&mut self) {
+    if let Some(h) = self.0.take() {
+      h.after_recv();
     }
   }
 }
